@@ -385,7 +385,7 @@ def run(chk):
 
     if corr_broken:
         chk.coverage["correspondence_disagreements"] = [repr(x)[:300] for x in corr_broken[:10]]
-        if not chk.violations:
+        if True:
             chk.violation("broken-correspondence", "model and implementation disagree on %d inputs, none of which violates the property's spec" % len(corr_broken),
                           {"correspondence": "loader model vs ovniemu / stream.c", "disagreements": [repr(x)[:400] for x in corr_broken[:20]]},
                           found_input=False)
